@@ -8,6 +8,16 @@ C39-LEN   A utility helper that builds its result with `PyUnicode_New(n, ...)` u
           the path with the comparison as a constraint, flag parameters (used as truth values) are enumerated over {0, 1}.  At each return the
           identity  len(result) == n  is decided under the path constraints (all forms must reduce to one integer combination of the parameters,
           whose feasible interval is computed; otherwise the path is reported as info).  No input values are sampled and nothing is executed.
+
+Round 4 (second half of the file), all over the #if variants the utility catalogue records for one C name:
+C39-OWN     ownership class (new / borrowed / null / non-object / unknown) of the value of every variant of a helper, by abstract evaluation of the macro body
+            (casts, parentheses, comma, ?: with neutral NULL arms, __Pyx_NewRef, nested helpers, C-API result ownership from the installed headers and the
+            frozen borrowed-reference table); C function variants by a path-sensitive walk over one returned local / one out-parameter.  Variants must agree.
+C39-FAM     concrete object family (Py<Family>_Type of the installed headers) of the C-API a variant applies to the helper's first argument: one family per
+            helper, the one it is named after.
+C39-SIGN    decision table of the one-parameter __Pyx_PyLong_* macros of the 3.12 tag-word layout and the ob_size layout over sign x digit count.
+C39-STRTAB  the emitted __Pyx_Decompress*() calls of Code.py: length arguments are len() of the array written under the passed C name / of the compressed
+            data; a branch never #defines the macro that disables the helper it calls (macro read from the #ifdef ... return NULL block of the helper).
 """
 import itertools, math, re
 
@@ -701,4 +711,1517 @@ def rule_len(ctx):
     bad = [x for x in len_problems(pc % '+ neg') if x[0] == 'path' and x[3]]
     good = [x for x in len_problems(pc % '') if x[0] == 'path']
     r.positive_control(bool(bad) and len(good) >= 3 and not any(x[3] for x in good), 'repeat count off by the sign flag')
+    return r
+
+
+# =====================================================================================================================
+# Strengthening round 4: the #if variants of one utility helper agree (C39-OWN, C39-FAM), the two PyLong layouts give the
+# same sign predicates (C39-SIGN), the emitted decompress calls pass the lengths of the arrays they were emitted with (C39-STRTAB)
+# =====================================================================================================================
+import ast, collections, os
+
+from ..engine import cutil, tables
+
+# ---------------------------------------------------------------------------------------------------- macro bodies as expressions
+class _MacroParser(cexpr.Parser):
+    """cexpr.Parser + comma expressions inside parentheses: ('comma', [e1, ..., en])."""
+
+    def _is_cast(self):
+        # `( name ... * ... )` can only be a pointer cast (cexpr knows a closed list of type words only)
+        j = self.i + 1
+        n = 0
+        while j < len(self.t) and self.t[j][0] == 'id' and re.fullmatch(r'[A-Za-z_]\w*', self.t[j][1]):
+            j += 1
+            n += 1
+        k = j
+        while k < len(self.t) and self.t[k] == ('op', '*'):
+            k += 1
+        if n and k > j and k < len(self.t) and self.t[k] == ('op', ')'):
+            return k
+        if n and k == j and k + 1 < len(self.t) and self.t[k] == ('op', ')') and self.t[k + 1][0] in ('id', 'num', 'char'):
+            return k                          # `(name) operand`: no other reading than a cast to a typedef name
+        return super()._is_cast()
+
+    def postfix(self):
+        if self.peek() == ('op', '('):
+            self.take()
+            items = [self.ternary()]
+            while self.peek() == ('op', ','):
+                self.take()
+                items.append(self.ternary())
+            self.take('op', ')')
+            e = items[0] if len(items) == 1 else ('comma', items)
+        else:
+            e = super().postfix()
+        while True:
+            if self.peek() == ('op', '-') and self.peek(1) == ('op', '>') and self.peek(2)[0] == 'id':     # (expr)->member
+                self.i += 2
+                e = ('member', e, self.take()[1])
+            elif self.peek() == ('op', '['):                                                                # f(x)[i], (expr)[i]
+                self.take()
+                idx = self.ternary()
+                self.take('op', ']')
+                e = ('bin', '[]', e, idx)
+            else:
+                return e
+
+
+_CSTR = re.compile(r'(?:"(?:\\.|[^"\\])*"\s*)+')
+
+
+def parse_macro_body(body):
+    """Body of a function-like macro -> cexpr AST (string literals become the identifier __STR__, $cname placeholders identifiers);
+    None when the body is not one C expression the parser understands (statement macros, member access, C++ ...)."""
+    t = _CSTR.sub(' __STR__ ', body or '')
+    t = re.sub(r'\$\{?(\w+)\}?', r'__cname_\1', t).strip()
+    if t.endswith(';'):
+        t = t[:-1]
+    if not t.strip():
+        return None
+    try:
+        return _MacroParser(t).parse()
+    except (cexpr.ParseError, IndexError, ValueError, TypeError):
+        return None
+
+
+def strip_wrappers(e):
+    """Remove casts, likely()/unlikely() and one-element parentheses (already gone in the AST)."""
+    while True:
+        if e[0] == 'cast':
+            e = e[2]
+        elif e[0] == 'call' and e[1] in ('likely', 'unlikely') and len(e[2]) == 1:
+            e = e[2][0]
+        else:
+            return e
+
+
+def cond_label(d):
+    return ' / '.join('#' + c.strip() for c in d.conds) if d.conds else 'unconditional'
+
+
+def index_c_text(text, fname='x.c', sname='S'):
+    """Index a synthetic C text with the catalogue's own indexer (embedded positive controls): C name -> [CDecl]."""
+    cat = object.__new__(cutil.Catalogue)
+    cat.decls = collections.defaultdict(list)
+    sec = cutil.Section(fname, sname, 'impl', 1)
+    sec.raw = text
+    cat._index_c(sec)
+    return cat.decls
+
+
+# ---------------------------------------------------------------------------------------------------- C39-OWN
+# Frozen from the CPython C-API reference (Doc/c-api/*.rst, Doc/data/refcounts.dat of 3.12/3.13): the functions and macros whose entry reads
+# "Return value: Borrowed reference."  Everything else that returns `PyObject *` returns a new (strong) reference ("Return value: New reference.").
+BORROWED_API = frozenset('''
+    PyTuple_GetItem PyTuple_GET_ITEM PyList_GetItem PyList_GET_ITEM PyDict_GetItem PyDict_GetItemWithError PyDict_GetItemString PyDict_SetDefault
+    PyODict_GetItem PyODict_GetItemWithError PyODict_GetItemString PySequence_Fast_GET_ITEM PyStructSequence_GetItem PyStructSequence_GET_ITEM
+    PyWeakref_GetObject PyWeakref_GET_OBJECT PyCell_GET PyErr_Occurred PyEval_GetBuiltins PyEval_GetGlobals PyEval_GetLocals PyEval_GetFrame
+    PyFunction_GetCode PyFunction_GetGlobals PyFunction_GetModule PyFunction_GetDefaults PyFunction_GetKwDefaults PyFunction_GetClosure
+    PyFunction_GetAnnotations PyFunction_GET_CODE PyFunction_GET_GLOBALS PyFunction_GET_MODULE PyFunction_GET_DEFAULTS PyFunction_GET_KW_DEFAULTS
+    PyFunction_GET_CLOSURE PyFunction_GET_ANNOTATIONS PyImport_AddModule PyImport_AddModuleObject PyImport_GetModuleDict
+    PyMethod_Function PyMethod_GET_FUNCTION PyMethod_Self PyMethod_GET_SELF PyInstanceMethod_Function PyInstanceMethod_GET_FUNCTION
+    PyModule_GetDict PyModuleDef_Init PyState_FindModule PyObject_Init PyObject_InitVar PySys_GetObject PySys_GetXOptions PyThreadState_GetDict
+    PyInterpreterState_GetDict PyCFunction_GET_SELF PyCFunction_GetSelf PyCFunction_GET_CLASS PyCMethod_GET_CLASS PyCMethod_GetClass
+    PyType_GetModule PyType_GetModuleByDef PyMemoryView_GET_BASE Py_GetConstantBorrowed Py_TYPE
+'''.split())
+# "Return value: Always NULL." - error arms, neutral for the ownership of the expression they end
+ALWAYS_NULL_API = frozenset('''
+    PyErr_NoMemory PyErr_Format PyErr_FormatV PyErr_SetFromErrno PyErr_SetFromErrnoWithFilename PyErr_SetFromErrnoWithFilenameObject
+    PyErr_SetFromErrnoWithFilenameObjects PyErr_SetFromWindowsErr PyErr_SetExcFromWindowsErr PyErr_SetFromWindowsErrWithFilename
+    PyErr_SetExcFromWindowsErrWithFilename PyErr_SetExcFromWindowsErrWithFilenameObject PyErr_SetExcFromWindowsErrWithFilenameObjects
+    PyErr_SetImportError PyErr_SetImportErrorSubclass
+'''.split())
+# new-reference API that the installed headers declare as macros / static inline functions or that is newer than the installed headers
+NEW_API_EXTRA = frozenset('PySequence_ITEM PyList_GetItemRef PyCell_Get PyWeakref_NewRef PyImport_AddModuleRef PySequence_Fast'.split())
+NEWREF = re.compile(r'^(?:__Pyx_|_?Py_)X?NewRef$')
+NEW, BOR, NON, NEU, UNK, MIX = 'new', 'borrowed', 'non-object', 'null', 'unknown', 'mixed'
+
+
+def own_join(a, b):
+    if a == NEU:
+        return b
+    if b == NEU:
+        return a
+    if a == b:
+        return a
+    if MIX in (a, b) or {a, b} == {NEW, BOR}:
+        return MIX
+    return UNK
+
+
+class Ownership:
+    """Ownership class of the value of a function-like helper macro, per #if variant."""
+
+    def __init__(self, decls, api=None):
+        self.decls = decls
+        self.api = tables.cpython_api() if api is None else api
+        self.memo = {}
+        self.leaks = {}           # id(decl) -> text of a NewRef(<new reference>) sub-expression
+        self.fmemo = {}
+
+    def api_class(self, name):
+        if NEWREF.match(name):
+            return NEW
+        if name in BORROWED_API:
+            return BOR
+        if name in ALWAYS_NULL_API:
+            return NEU
+        if name in NEW_API_EXTRA:
+            return NEW
+        if not re.match(r'Py[A-Z]', name):
+            return UNK                        # private (_Py*), unstable and foreign functions are not documented: never guessed
+        if name in self.api:
+            ret = ' '.join(self.api[name][0].replace('*', ' * ').split())
+            return NEW if ret == 'PyObject *' else NON
+        return UNK
+
+    def callee(self, name):
+        if name in self.decls and any(d.kind != 'proto' for d in self.decls[name]):
+            return self.helper(name)
+        return self.api_class(name)
+
+    def helper(self, name):
+        """Common class of all variants of a utility helper, UNK when they differ or one cannot be classified."""
+        if name in self.memo:
+            return self.memo[name]
+        self.memo[name] = UNK                 # cycles
+        cls = {self.variant(d) for d in self.decls[name] if d.kind != 'proto'}
+        res = cls.pop() if len(cls) == 1 else UNK
+        self.memo[name] = res if res in (NEW, BOR, NON) else UNK
+        return self.memo[name]
+
+    def variant(self, d):
+        if d.kind == 'func':
+            if id(d) not in self.fmemo:
+                self.fmemo[id(d)] = UNK
+                self.fmemo[id(d)] = func_return_class(self, d)
+            return self.fmemo[id(d)]
+        if d.kind != 'macro':
+            return UNK
+        if d.params is None:
+            tgt = (d.body or '').strip()
+            return self.callee(tgt) if re.fullmatch(r'[A-Za-z_]\w*', tgt) and tgt != d.name else UNK
+        e = parse_macro_body(d.body)
+        if e is None:
+            return UNK
+        return self.expr(e, d)
+
+    def expr(self, e, d):
+        k = e[0]
+        if k == 'cast':
+            return self.expr(e[2], d)
+        if k == 'comma':
+            last = strip_wrappers(e[1][-1])
+            c = self.expr(last, d)
+            if c == BOR and any(x[0] == 'call' and re.fullmatch(r'(?:Py_|__Pyx_)X?INCREF', x[1]) and len(x[2]) == 1 and strip_wrappers(x[2][0]) == last
+                                for x in map(strip_wrappers, e[1][:-1])):
+                return NEW                    # (Py_INCREF(x), x)
+            return c
+        if k == 'tern':
+            return own_join(self.expr(e[2], d), self.expr(e[3], d))
+        if k == 'id':
+            if e[1] == 'NULL':
+                return NEU
+            if d.kind == 'macro' and d.params and e[1] in [p.strip() for p in d.params]:
+                return BOR                    # the caller's own reference handed back: not a new one
+            return UNK
+        if k in ('num', 'char', 'sizeof'):
+            return NON
+        if k in ('un', 'bin'):
+            return UNK if (k == 'un' and e[1] in '*&') or (k == 'bin' and e[1] == '[]') else NON
+        if k == 'call':
+            name, args = e[1], e[2]
+            if name in ('likely', 'unlikely') and len(args) == 1:
+                return self.expr(args[0], d)
+            if NEWREF.match(name):
+                if len(args) == 1 and self.expr(args[0], d) == NEW:
+                    self.leaks[id(d)] = name
+                return NEW
+            return self.callee(name)
+        return UNK
+
+
+# API that stores a NEW (strong) reference through an out-parameter: name -> positions (0-based) of `PyObject **` results ("*result is a strong reference")
+OUT_NEW_API = {'PyDict_GetItemRef': (2,), 'PyDict_GetItemStringRef': (2,), 'PyDict_SetDefaultRef': (3,), 'PyDict_Pop': (2,), 'PyDict_PopString': (2,),
+               'PyMapping_GetOptionalItem': (2,), 'PyMapping_GetOptionalItemString': (2,), 'PyObject_GetOptionalAttr': (2,), 'PyObject_GetOptionalAttrString': (2,),
+               'PyWeakref_GetRef': (1,), 'PyImport_GetModuleAttr': ()}
+OUT_BORROWED_API = {'PyDict_Next': (2, 3)}
+UNSET = 'unset'
+_INCREF = re.compile(r'^(?:Py_X?INCREF|__Pyx_X?INCREF)\s*\((.*)\)$')
+_DECREF = re.compile(r'^(?:Py_X?DECREF|Py_CLEAR|__Pyx_X?DECREF|__Pyx_CLEAR|Py_SETREF|Py_XSETREF|__Pyx_DECREF_SET|__Pyx_XDECREF_SET)\s*\(\s*(.*?)\s*[,)]')
+
+
+class _GiveUp(Exception):
+    pass
+
+
+class CellFlow:
+    """Path-sensitive walk over a small C function: ownership state of ONE cell (a local `PyObject *v` that is returned, or `*p` for an out-parameter p)
+    at every `return`.  States: unset, null, new, borrowed, unknown.  Loops, goto, switch, #if inside the body, address-taking -> give up (UNK)."""
+
+    def __init__(self, own, d, cell, mode):
+        self.own, self.d, self.cell, self.mode = own, d, cell, mode           # cell: ('id', v) | ('un', '*', ('id', p))
+        self.name = cell[1] if cell[0] == 'id' else cell[2][1]
+        self.rets = []
+
+    def is_cell(self, e):
+        return strip_wrappers(e) == self.cell
+
+    def mentions(self, text):
+        return re.search(r'\b%s\b' % re.escape(self.name), text) is not None
+
+    def classify(self):
+        try:
+            stmts = parse_body(self.d.body)
+            end = self.block(stmts, {UNSET})
+        except (_GiveUp, AnalysisError):
+            return UNK
+        if self.mode == 'out':
+            self.rets += list(end)
+        got = {c for c in self.rets if c not in (NEU, UNSET)}
+        if not got or UNK in got:
+            return UNK
+        if got == {NEW}:
+            return NEW
+        if got == {BOR}:
+            return BOR
+        return MIX if got <= {NEW, BOR, MIX} else UNK
+
+    def block(self, stmts, states):
+        for st in stmts:
+            nxt = set()
+            for s_ in states:
+                nxt |= self.stmt(st, s_)
+            states = nxt
+            if not states:
+                break
+        return states
+
+    def stmt(self, st, state):
+        k = st.kind
+        if k == 'block':
+            return self.block(st.body, {state})
+        if k == 'if':
+            e = parse_macro_body(st.text)
+            if e is None:
+                if self.mentions(st.text):
+                    raise _GiveUp()
+                t = f = state
+            else:
+                t, f = self.refine(e, state, True), self.refine(e, state, False)
+            out = set()
+            if t is not None:
+                out |= self.block(as_list(st.body), {t})
+            if f is not None:
+                out |= self.block(as_list(st.orelse), {f}) if st.orelse is not None else {f}
+            return out
+        if k != 'simple':
+            raise _GiveUp()
+        t = st.text.strip()
+        if not t:
+            return {state}
+        m = re.match(r'return\b\s*(.*)$', t)
+        if m:
+            self.ret(state, m.group(1).strip())
+            return set()
+        if re.match(r'(?:goto|break|continue)\b', t):
+            raise _GiveUp()
+        if self.cell[0] == 'id':
+            am = re.match(r'^(?:(?:const\s+|static\s+)*\w+\s*\*\s*)?%s\s*=(?!=)\s*(.+)$' % re.escape(self.name), t)
+            decl_only = re.match(r'^(?:const\s+|static\s+)*\w+[\s\*]+[^=(]*\b%s\b[^=(]*$' % re.escape(self.name), t)
+        else:
+            am = re.match(r'^\*\s*%s\s*=(?!=)\s*(.+)$' % re.escape(self.name), t)
+            decl_only = None
+        if am:
+            if split_args(am.group(1)) != [am.group(1).strip()]:
+                raise _GiveUp()                                   # several declarators
+            e = parse_macro_body(am.group(1))
+            c = self.own.expr(e, self.d) if e is not None else UNK
+            return {c if c in (NEW, BOR, NEU, MIX) else UNK}
+        if decl_only:
+            return {state}
+        if not self.mentions(t):
+            return {state}
+        im = _INCREF.match(t)
+        if im:
+            e = parse_macro_body(im.group(1))
+            if e is not None and self.is_cell(e):
+                if state == UNSET:
+                    raise _GiveUp()
+                return {{BOR: NEW, NEU: NEU}.get(state, UNK)}
+        dm = _DECREF.match(t)
+        if dm:
+            e = parse_macro_body(dm.group(1))
+            if e is not None and self.is_cell(e):
+                return {UNK}
+        if self.cell[0] == 'id':
+            if re.search(r'&\s*%s\b' % re.escape(self.name), t) or re.search(r'\b%s\s*(?:=(?!=)|\+\+|--)' % re.escape(self.name), t):
+                raise _GiveUp()
+            return {state if state in (UNSET, NEU) else UNK}      # the value is read: it may be stored (ownership handed over) - not modelled
+        if re.search(r'(?<![\*\w])\s*%s\b' % re.escape(self.name), re.sub(r'\*\s*%s\b' % re.escape(self.name), '', t)):
+            raise _GiveUp()                                       # the out-pointer itself is passed on
+        return {state}
+
+    def ret(self, state, text):
+        if self.mode == 'out':
+            if re.search(r'\b%s\b' % re.escape(self.name), re.sub(r'\*\s*%s\b' % re.escape(self.name), '', text)):
+                raise _GiveUp()
+            self.rets.append(state)
+            return
+        e = parse_macro_body(text) if text else None
+        if e is None:
+            raise _GiveUp()
+        if self.is_cell(e):
+            if state == UNSET:
+                raise _GiveUp()
+            self.rets.append(state)
+        else:
+            c = self.own.expr(e, self.d)
+            self.rets.append(c if c in (NEW, BOR, NEU, MIX) else UNK)
+
+    def refine(self, e, state, truth):
+        """State of the cell when the condition e has the given truth value; None = infeasible."""
+        e = strip_wrappers(e)
+        if self.is_cell(e):
+            return self.known(state, truth)
+        if e[0] == 'un' and e[1] == '!':
+            return self.refine(e[2], state, not truth)
+        if e[0] == 'bin' and e[1] in ('==', '!='):
+            a, b = strip_wrappers(e[2]), strip_wrappers(e[3])
+            null = lambda x: x in (('id', 'NULL'), ('num', 0))
+            if (self.is_cell(a) and null(b)) or (self.is_cell(b) and null(a)):
+                return self.known(state, truth == (e[1] == '!='))
+        if e[0] == 'bin' and e[1] == '&&' and truth:
+            s1 = self.refine(e[2], state, True)
+            return None if s1 is None else self.refine(e[3], s1, True)
+        if e[0] == 'bin' and e[1] == '||' and not truth:
+            s1 = self.refine(e[2], state, False)
+            return None if s1 is None else self.refine(e[3], s1, False)
+        return state
+
+    @staticmethod
+    def known(state, nonnull):
+        if nonnull:
+            return None if state == NEU else state
+        return state if state == UNSET else NEU
+
+
+def func_return_class(own, d):
+    """Ownership class of the value returned by a C function variant returning `PyObject *` (UNK unless the small flow analysis succeeds)."""
+    ret = (d.ret or '').replace(' ', '')
+    if not ret.endswith('PyObject*') or not d.body:
+        return UNK
+    if re.search(r'^[ \t]*#', d.body, re.M):
+        return UNK                                                # preprocessor variants inside the body
+    names = set()
+    for m in re.finditer(r'\breturn\b\s*([^;]*);', d.body):
+        e = parse_macro_body(m.group(1))
+        if e is None:
+            return UNK
+        e = strip_wrappers(e)
+        if e[0] == 'id' and e[1] != 'NULL':
+            names.add(e[1])
+    if len(names) > 1:
+        return UNK
+    pnames = {n for n in d.param_names() if n}
+    if names & pnames:
+        return UNK                                                # returns one of its arguments
+    cell = ('id', names.pop()) if names else ('id', '__no_local__')
+    return CellFlow(own, d, cell, 'ret').classify()
+
+
+def out_params(d):
+    """Positions and names of the `PyObject **` parameters of a C function variant."""
+    out = []
+    for i, (p, n) in enumerate(zip(d.params or [], d.param_names())):
+        if n and re.search(r'PyObject\s*\*\s*\*\s*%s\s*$' % re.escape(n), p):
+            out.append((i, n))
+    return out
+
+
+def out_class(own, d, pos):
+    """Ownership class of the reference a variant stores through its out-parameter at position pos."""
+    if d.kind == 'func':
+        ops = dict(out_params(d))
+        if pos not in ops or not d.body or re.search(r'^[ \t]*#', d.body, re.M):
+            return UNK
+        return CellFlow(own, d, ('un', '*', ('id', ops[pos])), 'out').classify()
+    if d.kind == 'macro' and d.params is not None and pos < len(d.params):
+        e = parse_macro_body(d.body)
+        if e is None:
+            return UNK
+        e = strip_wrappers(e)
+        if e[0] == 'call':
+            where = [i for i, a in enumerate(e[2]) if strip_wrappers(a) == ('id', d.params[pos].strip())]
+            if len(where) == 1:
+                if where[0] in OUT_NEW_API.get(e[1], ()):
+                    return NEW
+                if where[0] in OUT_BORROWED_API.get(e[1], ()):
+                    return BOR
+    return UNK
+
+
+def own_problems(decls, api=None):
+    """-> (instances [(helper, [(decl, class)])], problems [(helper, decl, message)], undecided count)."""
+    o = Ownership(decls, api)
+    inst, probs, undecided = [], [], 0
+    for name in sorted(decls):
+        vs = [d for d in decls[name] if d.kind != 'proto']
+        if not any(d.kind == 'macro' and d.params is not None for d in vs) and not (len(vs) >= 2 and any(d.kind == 'func' for d in vs)):
+            continue
+        # references stored through `PyObject **` out-parameters
+        for pos, pname in sorted({op for d in vs if d.kind == 'func' for op in out_params(d)}) if len(vs) >= 2 else ():
+            ocl = [(d, out_class(o, d, pos)) for d in vs]
+            oknown = [(d, c) for d, c in ocl if c in (NEW, BOR, MIX)]
+            if len(oknown) < 2:
+                continue
+            inst.append(('%s:*%s' % (name, pname), ocl))
+            if len({c for d, c in oknown}) > 1 or any(c == MIX for d, c in oknown):
+                bad = [x for x in oknown if x[1] == MIX] or [x for x in oknown if x[1] == BOR]
+                desc = '; '.join('[%s, %s:%d] -> %s' % (cond_label(d), d.file, d.line, {NEW: 'NEW (owned) reference', BOR: 'BORROWED reference', MIX: 'owned on one path, borrowed on another'}[c]) for d, c in oknown)
+                probs.append(('%s:*%s' % (name, pname), bad[0][0],
+                              'the #if variants of %s store references of different ownership in *%s: %s. The callers release *%s unconditionally, so in the build configurations that select the borrowing '
+                              'variant every call drops a reference the container still owns (use after free), the others are fine' % (name, pname, desc, pname)))
+        cl = [(d, o.variant(d)) for d in vs]
+        known = [(d, c) for d, c in cl if c in (NEW, BOR, MIX)]
+        for d, c in cl:
+            if id(d) in o.leaks:
+                probs.append((name, d, '%s [%s, %s:%d] applies %s() to an expression that already is a new reference: the helper leaks one reference per call in that configuration only'
+                              % (name, cond_label(d), d.file, d.line, o.leaks[id(d)])))
+        if len(vs) < 2:
+            continue
+        if len(known) < 2:
+            undecided += 1
+            continue
+        inst.append((name, cl))
+        classes = {c for d, c in known}
+        if len(classes) > 1 or MIX in classes:
+            bad = [x for x in known if x[1] == MIX] or [x for x in known if x[1] == BOR]
+            desc = '; '.join('[%s, %s:%d] -> %s reference' % (cond_label(d), d.file, d.line, {NEW: 'NEW (owned)', BOR: 'BORROWED', MIX: 'new on one arm, borrowed on another'}[c]) for d, c in known)
+            probs.append((name, bad[0][0],
+                          'the #if variants of %s hand the caller references of different ownership: %s. The callers are written once (they either Py_DECREF the result or they do not), '
+                          'so one build configuration leaks a reference per call and the other releases an object it does not own (use after free)' % (name, desc)))
+    return inst, probs, undecided
+
+
+OWN_PC = ("#if CYTHON_A\n  #define __Pyx_GetRef(o, i) __Pyx_XNewRef(PyList_GetItem(o, i))\n#elif CYTHON_B\n  #define __Pyx_GetRef(o, i) ((void)(i), \\\n     (PyObject*) PyTuple_GET_ITEM((o), (i)))\n"
+          "#else\n  #define __Pyx_GetRef(o, i) (likely((i) >= 0) ? PySequence_GetItem(o, i) : (PyErr_SetString(PyExc_IndexError, \"x\"), (PyObject*)NULL))\n#endif\n"
+          "#if CYTHON_A\n  #define __Pyx_Item(o, i) PySequence_ITEM(o, i)\n#else\n  #define __Pyx_Item(o, i) __Pyx_NewRef(__Pyx_GetRef2(o, i))\n#endif\n"
+          "#if CYTHON_A\n  #define __Pyx_GetRef2(o, i) PyTuple_GET_ITEM(o, i)\n#else\n  #define __Pyx_GetRef2(o, i) PyTuple_GetItem(o, i)\n#endif\n"
+          "#if CYTHON_A\n  #define __Pyx_Leak(o, i) __Pyx_NewRef(PySequence_GetItem(o, i))\n#else\n  #define __Pyx_Leak(o, i) PySequence_GetItem(o, i)\n#endif\n"
+          "#if CYTHON_A\nstatic int __Pyx_Lookup(PyObject *d, PyObject *k, PyObject **res) {\n  *res = PyDict_GetItemWithError(d, k);\n  if (*res == NULL) {\n    return PyErr_Occurred() ? -1 : 0;\n  }\n  return 1;\n}\n"
+          "#else\n#define __Pyx_Lookup(d, k, res) PyDict_GetItemRef(d, k, res)\n#endif\n"
+          "#if CYTHON_A\nstatic PyObject *__Pyx_Get(PyObject *d, PyObject *k) {\n  PyObject *v = PyDict_GetItemWithError(d, k);\n  if (unlikely(!v)) return NULL;\n  Py_INCREF(v);\n  return v;\n}\n"
+          "#else\n#define __Pyx_Get(d, k) PyObject_GetItem(d, k)\n#endif\n")
+
+
+def rule_own(ctx):
+    r = Rule('C39-OWN', 'all #if variants of a function-like utility helper hand their caller a reference of the same ownership class (new vs borrowed; abstract evaluation of the '
+             'macro bodies: casts/parentheses/comma/?: with NULL error arms, __Pyx_NewRef, nested helpers through the catalogue, C-API result ownership from the headers + the '
+             'documented borrowed-reference table; C function variants by a small path-sensitive walk over one returned local / one out-parameter)', floor=19)
+    inst, probs, undecided = own_problems(ctx.cat.decls)
+    for name, cl in inst:
+        r.inst('own:' + name, sample='%s: %s' % (name, ', '.join('%s=%s' % (cond_label(d), c) for d, c in cl)))
+    for name, d, msg in probs:
+        r.violate('own:' + name, UTIL + '/' + d.file, d.line, msg)
+    r.info('%d multi-variant helpers with fewer than two variants of a decidable ownership class (statement macros, non-object results, C functions)' % undecided)
+    pinst, pprobs, _ = own_problems(index_c_text(OWN_PC))
+    r.positive_control(sorted({p[0] for p in pprobs}) == ['__Pyx_GetRef', '__Pyx_Leak', '__Pyx_Lookup:*res']
+                       and {n for n, _ in pinst} == {'__Pyx_GetRef', '__Pyx_Item', '__Pyx_GetRef2', '__Pyx_Leak', '__Pyx_Lookup:*res', '__Pyx_Get'},
+                       'borrowed variant next to two owning ones; NewRef of a new reference; out-parameter filled with a borrowed reference in one variant')
+    return r
+
+
+# ---------------------------------------------------------------------------------------------------- C39-FAM
+# C-API name families that are *protocols* (applicable to objects of any concrete layout); every other family that has a type object
+# `Py<Family>_Type` in the installed headers is the API of one concrete object layout.
+ABSTRACT_FAMILIES = frozenset('Object Sequence Mapping Number Iter AIter Index Buffer Callable Vectorcall Err Exception Mem GC Eval Import ThreadState '
+                              'Interpreter Sys OS Arg Unstable Codec Marshal Run Weakref BaseObject'.split())
+# spellings of one concrete family (subtype relations of the layouts: the API of the right-hand family accepts the left-hand objects)
+FAMILY_ALIAS = {'FrozenSet': 'Set', 'AnySet': 'Set', 'AnyDict': 'Dict', 'FrozenDict': 'Dict', 'ODict': 'Dict', 'Bool': 'Long', 'CMethod': 'CFunction'}
+_FAM_NAME = re.compile(r'^(?:__Pyx_)?Py([A-Z][A-Za-z]*)_(\w+)$')
+_CONCRETE = None
+
+
+def concrete_families():
+    """Families with a type object in the installed CPython headers (PyAPI_DATA(PyTypeObject) Py<Family>_Type), minus the protocol families."""
+    global _CONCRETE
+    if _CONCRETE is None:
+        fams = set()
+        inc = tables.cpython_include()
+        for dp, dns, fns in os.walk(inc):
+            for fn in fns:
+                if fn.endswith('.h'):
+                    try:
+                        txt = open(os.path.join(dp, fn), encoding='utf-8', errors='replace').read()
+                    except OSError:
+                        continue
+                    fams.update(re.findall(r'PyAPI_DATA\(\s*PyTypeObject\s*\)\s*Py([A-Z][A-Za-z]*)_Type\b', txt))
+        fams = {FAMILY_ALIAS.get(f, f) for f in fams} - ABSTRACT_FAMILIES
+        if not {'Tuple', 'List', 'Dict', 'Set', 'Bytes', 'ByteArray', 'Unicode', 'Long', 'Float'} <= fams:
+            raise AnalysisError('type objects of the basic concrete families not found in the installed headers (%d families)' % len(fams))
+        _CONCRETE = frozenset(fams)
+    return _CONCRETE
+
+
+def family_of(cname):
+    """Concrete family named by a C-API / helper name, or None (protocol family, type check, unknown)."""
+    m = _FAM_NAME.match(cname)
+    if not m or m.group(2) in ('Check', 'CheckExact') or re.match(r'(?:From|New)', m.group(2)):
+        return None                           # type checks accept any object; constructors/conversions take an object of ANOTHER kind
+    proto = tables.cpython_api().get(cname)
+    if proto is not None and (not proto[1] or not re.match(r'(?:const\s+)?Py\w*Object\s*\*', proto[1][0])):
+        return None                           # first parameter is not an object (PyUnicode_DecodeUTF8(const char *, ...))
+    f = FAMILY_ALIAS.get(m.group(1), m.group(1))
+    return f if f in concrete_families() else None
+
+
+def variant_families(d):
+    """Concrete families of the calls that receive the helper's first macro parameter as their first argument: {family: callee}; None = body not understood."""
+    if d.kind != 'macro' or not d.params:
+        return None
+    e = parse_macro_body(d.body)
+    if e is None:
+        return None
+    first = d.params[0].strip()
+    out = {}
+    for x in cexpr.walk(e):
+        if x[0] == 'call' and x[2] and strip_wrappers(x[2][0]) == ('id', first):
+            f = family_of(x[1])
+            if f:
+                out.setdefault(f, x[1])
+    return out
+
+
+def fam_problems(decls):
+    """-> (instances [(helper, own family, [(decl, {family: callee})])], problems [(helper, decl, message)])."""
+    inst, probs = [], []
+    for name in sorted(decls):
+        vs = [d for d in decls[name] if d.kind == 'macro' and d.params]
+        if len([d for d in decls[name] if d.kind != 'proto']) < 2 or not vs:
+            continue
+        fams = [(d, variant_families(d)) for d in vs]
+        fams = [(d, f) for d, f in fams if f]
+        m = _FAM_NAME.match(name)
+        own = family_of(name) if m and m.group(2) not in ('Check', 'CheckExact') else None
+        if not fams or (len(fams) < 2 and own is None):
+            continue
+        inst.append((name, own, fams))
+        done = False
+        if own is not None:
+            for d, f in fams:
+                if own not in f:
+                    done = True
+                    probs.append((name, d, 'the variant of %s under [%s] (%s:%d) hands its first argument to %s, the C-API of the concrete type family %s, but the helper is the %s member of its table '
+                                  '(the other variants use %s): in the build configurations that select this variant the %s-specific call is applied to a %s object - it fails with SystemError '
+                                  '(bad internal call) or, for an unchecked macro, reads the wrong struct layout' % (
+                                      name, cond_label(d), d.file, d.line, ', '.join(sorted(f.values())), '/'.join(sorted(f)), own,
+                                      ', '.join(sorted({c for d2, f2 in fams if d2 is not d for c in f2.values()})) or 'none', '/'.join(sorted(f)), own)))
+        if not done:
+            for i, (d, f) in enumerate(fams):
+                for d2, f2 in fams[i + 1:]:
+                    if not set(f) & set(f2):
+                        probs.append((name, d2, 'two #if variants of %s apply the concrete-type C-API of different object families to the same argument: [%s] calls %s (%s), [%s] calls %s (%s). '
+                                      'The helper is used on one kind of object, so in one of the two build configurations the call fails (SystemError: bad internal call) or reads the wrong struct'
+                                      % (name, cond_label(d), ', '.join(sorted(f.values())), '/'.join(sorted(f)), cond_label(d2), ', '.join(sorted(f2.values())), '/'.join(sorted(f2)))))
+    return inst, probs
+
+
+FAM_PC = ("#if CYTHON_S\n  #define __Pyx_PySet_GET_SIZE(o) PySet_GET_SIZE(o)\n  #define __Pyx_PyThing_Len(o) ((Py_ssize_t) PyTuple_GET_SIZE((PyObject*)(o)))\n  #define __Pyx_PyBytes_GET_SIZE(o) PyBytes_GET_SIZE(o)\n"
+          "  #define __Pyx_PyList_Len(o) (PyList_Check(o) ? PyList_GET_SIZE(o) : PyObject_Size(o))\n"
+          "#else\n  #define __Pyx_PySet_GET_SIZE(o) PyDict_Size(o)\n  #define __Pyx_PyThing_Len(o) PyList_Size(o)\n  #define __Pyx_PyBytes_GET_SIZE(o) PyBytes_Size(o)\n"
+          "  #define __Pyx_PyList_Len(o) PySequence_Size(o)\n#endif\n")
+
+
+def rule_fam(ctx):
+    r = Rule('C39-FAM', 'the #if variants of a function-like utility helper apply the concrete-type C-API of ONE object family (Tuple/List/Dict/Set/Bytes/ByteArray/Unicode/Long/...; families '
+             'from the type objects of the installed headers) to the helper\'s first argument, and that family is the one the helper is named after', floor=48)
+    inst, probs = fam_problems(ctx.cat.decls)
+    for name, own, fams in inst:
+        r.inst('fam:' + name, sample='%s (%s): %s' % (name, own or '-', '; '.join('/'.join(sorted(f)) for d, f in fams)))
+    for name, d, msg in probs:
+        r.violate('fam:' + name, UTIL + '/' + d.file, d.line, msg)
+    pinst, pprobs = fam_problems(index_c_text(FAM_PC))
+    r.positive_control(sorted(p[0] for p in pprobs) == ['__Pyx_PySet_GET_SIZE', '__Pyx_PyThing_Len'] and len(pinst) == 4,
+                       'Set helper calling the Dict API in one branch; Tuple API in one branch and List API in the other')
+    return r
+
+
+# ---------------------------------------------------------------------------------------------------- C39-SIGN
+TC = 'TypeConversion.c'
+PYLONG_PREFIX = '__Pyx_PyLong_'
+# what the callers (written once for both layouts) rely on, by the name of the macro: f(sign, ndigits, first digit) ; compact = at most one digit
+SIGN_SPEC = {
+    'IsNeg': ('truth', lambda s, n, d: s < 0), 'IsNonNeg': ('truth', lambda s, n, d: s >= 0), 'IsZero': ('truth', lambda s, n, d: s == 0),
+    'IsNonZero': ('truth', lambda s, n, d: s != 0), 'IsPos': ('truth', lambda s, n, d: s > 0), 'Sign': ('value', lambda s, n, d: s),
+    'DigitCount': ('value', lambda s, n, d: n), 'SignedDigitCount': ('value', lambda s, n, d: s * n), 'IsCompact': ('implies', lambda s, n, d: n <= 1),
+    'CompactValue': ('compact', lambda s, n, d: s * d), 'CompactValueUnsigned': ('compact', lambda s, n, d: d if s else 0),
+}
+SIGNED_CASTS = re.compile(r'^(?:signed\s+)?(?:int|long|long long|short|Py_ssize_t|sdigit|stwodigits|Py_hash_t|__Pyx_compact_pylong|PY_LONG_LONG)$')
+
+
+class _Delegated(Exception):
+    pass
+
+
+class LayoutEval:
+    """Evaluates the one-parameter __Pyx_PyLong_* macros of one PyLong layout on an abstract integer (its tag word or its ob_size, first digit)."""
+
+    def __init__(self, macros, consts, layout):
+        self.macros, self.consts, self.layout = macros, consts, layout      # macros: name -> [CDecl]
+        self.asts = {}
+
+    def ast_of(self, d):
+        if id(d) not in self.asts:
+            e = parse_macro_body(d.body)
+            if e is None:
+                raise AnalysisError('C39-SIGN: cannot parse the body of %s (%s:%d): %s' % (d.name, d.file, d.line, d.body))
+            self.asts[id(d)] = e
+        return self.asts[id(d)]
+
+    def call_macro(self, d, args, prim, depth):
+        if depth > 12:
+            raise AnalysisError('C39-SIGN: macro expansion of %s does not terminate' % d.name)
+        if len(args) != len(d.params):
+            raise AnalysisError('C39-SIGN: %s called with %d arguments' % (d.name, len(args)))
+        return self.ev(self.ast_of(d), dict(zip([p.strip() for p in d.params], args)), prim, depth + 1)
+
+    def ev(self, e, env, prim, depth=0):
+        k = e[0]
+        if k in ('num', 'char'):
+            return e[1]
+        if k == 'id':
+            if e[1] in env:
+                return env[e[1]]
+            if e[1] in self.consts:
+                return self.consts[e[1]]
+            raise AnalysisError('C39-SIGN: free identifier %s in the %s layout' % (e[1], self.layout))
+        if k == 'cast':
+            v = self.ev(e[2], env, prim, depth)
+            if isinstance(v, int) and v < 0 and not SIGNED_CASTS.match(e[1].replace('const ', '').strip()):
+                raise AnalysisError('C39-SIGN: cast of the negative value %d to `%s` is not modelled' % (v, e[1]))
+            return v
+        if k == 'comma':
+            return self.ev(e[1][-1], env, prim, depth)
+        if k == 'member':
+            if e[2].split('.')[-1] == 'lv_tag' and isinstance(self.ev(e[1], env, prim, depth), tuple):
+                if 'tag' not in prim:
+                    raise AnalysisError('C39-SIGN: lv_tag read in the %s layout' % self.layout)
+                return prim['tag']
+            raise AnalysisError('C39-SIGN: member access ->%s is not modelled' % e[2])
+        if k == 'tern':
+            return self.ev(e[2] if self.truth(self.ev(e[1], env, prim, depth)) else e[3], env, prim, depth)
+        if k == 'bin' and e[1] == '[]':
+            b = strip_wrappers(e[2])
+            if b[0] == 'call' and b[1] == PYLONG_PREFIX + 'Digits' and self.ev(e[3], env, prim, depth) == 0:
+                return prim['digit0']
+            raise AnalysisError('C39-SIGN: subscript is not modelled')
+        if k == 'bin' and e[1] in ('&&', '||'):
+            a = self.truth(self.ev(e[2], env, prim, depth))
+            if (e[1] == '&&') != a:
+                return int(a)
+            return int(self.truth(self.ev(e[3], env, prim, depth)))
+        if k in ('un', 'bin'):
+            vals = [self.ev(x, env, prim, depth) for x in e[2:]]
+            if not all(isinstance(v, int) for v in vals):
+                raise AnalysisError('C39-SIGN: arithmetic on the object pointer')
+            try:
+                return cexpr.evaluate((k, e[1]) + tuple(('num', v) for v in vals), {})
+            except cexpr.EvalError as x:
+                raise AnalysisError('C39-SIGN: %s' % x)
+        if k == 'call':
+            name, args = e[1], e[2]
+            if name in ('likely', 'unlikely') and len(args) == 1:
+                return self.ev(args[0], env, prim, depth)
+            vals = [self.ev(a, env, prim, depth) for a in args]
+            if name == 'Py_SIZE' and len(vals) == 1 and isinstance(vals[0], tuple):
+                if 'size' not in prim:
+                    raise AnalysisError('C39-SIGN: Py_SIZE() read in the %s layout (ob_size is not the digit count there)' % self.layout)
+                return prim['size']
+            if name == '__Pyx_sst_abs' and len(vals) == 1 and isinstance(vals[0], int):
+                return abs(vals[0])
+            if name in self.macros:
+                cands = self.macros[name]
+                if len(cands) != 1:
+                    raise AnalysisError('C39-SIGN: %d variants of %s in the %s layout' % (len(cands), name, self.layout))
+                return self.call_macro(cands[0], vals, prim, depth)
+            if re.match(r'Py[A-Z]', name) and depth <= 1:
+                raise _Delegated(name)
+            raise AnalysisError('C39-SIGN: call of %s is not modelled (%s layout)' % (name, self.layout))
+        raise AnalysisError('C39-SIGN: expression node %s is not modelled' % k)
+
+    @staticmethod
+    def truth(v):
+        if not isinstance(v, int):
+            raise AnalysisError('C39-SIGN: truth value of a pointer')
+        return v != 0
+
+
+def _pylong_consts(text, r=None):
+    """Fallback #defines of the tag-word constants in the utility text, cross-checked with the installed cpython/longintrepr.h."""
+    consts = {m.group(1): int(m.group(2), 0) for m in re.finditer(r'^[ \t]*#[ \t]*define[ \t]+(_PyLong_\w+)[ \t]+(0[xX][0-9a-fA-F]+|\d+)[ \t]*$', strip_c_comments(text), re.M)}
+    hdr = {}
+    p = os.path.join(tables.cpython_include(), 'cpython', 'longintrepr.h')
+    if os.path.exists(p):
+        hdr = {m.group(1): int(m.group(2), 0) for m in re.finditer(r'^[ \t]*#[ \t]*define[ \t]+(_PyLong_\w+)[ \t]+(0[xX][0-9a-fA-F]+|\d+)[ \t]*$',
+                                                                  strip_c_comments(open(p, encoding='utf-8', errors='replace').read()), re.M)}
+    return consts, hdr
+
+
+def sign_layout_sets(decls):
+    """-> {'tag': (prefix, {name: [decl]}), 'size': (...)}: the one-parameter __Pyx_PyLong_* macros of the two integer layouts, found through the primitive they read."""
+    ms = [d for n, ds in decls.items() if n.startswith(PYLONG_PREFIX) for d in ds if d.kind == 'macro' and d.params is not None and len(d.params) == 1]
+    seeds = {'tag': [d for d in ms if re.search(r'\blv_tag\b', d.body or '')], 'size': [d for d in ms if re.search(r'\bPy_SIZE\s*\(', d.body or '')]}
+    pref = {}
+    for lay, sd in seeds.items():
+        if not sd:
+            raise AnalysisError('C39-SIGN: no %s macro reads %s' % (PYLONG_PREFIX + '*', 'lv_tag' if lay == 'tag' else 'Py_SIZE()'))
+        p = list(sd[0].conds)
+        for d in sd[1:]:
+            n = 0
+            while n < min(len(p), len(d.conds)) and p[n] == d.conds[n]:
+                n += 1
+            p = p[:n]
+        pref[lay] = tuple(p)
+    a, b = pref['tag'], pref['size']
+    if a[:len(b)] == b or b[:len(a)] == a:
+        raise AnalysisError('C39-SIGN: the tag-word and the ob_size macros are not in separate #if branches (%r / %r)' % (a, b))
+    out = {}
+    for lay in ('tag', 'size'):
+        p, other = pref[lay], pref['size' if lay == 'tag' else 'tag']
+        env = collections.defaultdict(list)
+        for d in ms:
+            c = tuple(d.conds)
+            if c[:len(p)] == p or (p[:len(c)] == c and other[:len(c)] == c):       # inside the layout branch, or shared by both layouts
+                env[d.name].append(d)
+        out[lay] = (p, dict(env))
+    return out
+
+
+def sign_points():
+    """The complete abstract domain: sign x digit count (0 digits <=> zero), first digit in two values (0/garbage for zero)."""
+    for s in (-1, 0, 1):
+        for n in ((0,) if s == 0 else (1, 2, 3)):
+            yield s, n
+
+
+def sign_problems(decls, consts):
+    """-> (instances [(key, sample)], problems [(macro, decl, msg)], infos)."""
+    lays = sign_layout_sets(decls)
+    nsb, mask = consts.get('_PyLong_NON_SIZE_BITS'), consts.get('_PyLong_SIGN_MASK')
+    if nsb is None or mask is None:
+        raise AnalysisError('C39-SIGN: _PyLong_NON_SIZE_BITS / _PyLong_SIGN_MASK not defined next to the tag-word macros')
+    inst, probs, infos = [], [], []
+    tables_ = {}
+    human = {'tag': 'CPython >= 3.12 tag word (lv_tag)', 'size': 'CPython < 3.12 ob_size'}
+    for lay, (prefix, macros) in lays.items():
+        ev = LayoutEval(macros, consts, lay)
+        for name in sorted(macros):
+            short = name[len(PYLONG_PREFIX):]
+            for d in macros[name]:
+                if short == 'Digits':
+                    continue
+                key = 'sign:%s@%s' % (short, lay) + ('' if len(macros[name]) == 1 else '[%s]' % cond_label(d))
+                kind, spec = SIGN_SPEC.get(short, ('free', None))
+                vals, bad, delegated = {}, None, None
+                for s, n in sign_points():
+                    if kind == 'compact' and n > 1:
+                        continue
+                    digits = ((0,) if lay == 'tag' else (0, 9)) if s == 0 else (1, 5)
+                    for dg in digits:
+                        prim = {'digit0': dg}
+                        if lay == 'tag':
+                            prim['tag'] = (n << nsb) | {1: 0, 0: 1, -1: 2}[s]
+                        else:
+                            prim['size'] = s * n
+                        try:
+                            v = ev.call_macro(d, [('obj',)], prim, 0)
+                        except _Delegated as x:
+                            delegated = str(x)
+                            break
+                        vals[(s, n, dg)] = v
+                        if spec is not None and bad is None:
+                            want = spec(s, n, dg)
+                            # IsCompact only gates a fast path: answering `no` for a one-digit int is slower, not wrong; `yes` for a longer one is wrong
+                            ok = (bool(v) == bool(want)) if kind == 'truth' else ((not v) or bool(want)) if kind == 'implies' else (v == want)
+                            if not ok:
+                                bad = (s, n, dg, v, want)
+                    if delegated:
+                        break
+                if delegated:
+                    infos.append('%s: delegated to %s() of CPython, not evaluated' % (key, delegated))
+                    continue
+                inst.append((key, '%s = %s' % (key, sorted(set(vals.values())))))
+                tables_.setdefault(short, {}).setdefault(lay, []).append((d, vals, kind))
+                if bad:
+                    s, n, dg, v, want = bad
+                    what = {-1: 'a negative', 0: 'the', 1: 'a positive'}[s] + ' int ' + ('zero' if s == 0 else 'of %d digit(s), first digit %d' % (n, dg))
+                    probs.append((name, d, '%s in the %s layout [%s, %s:%d] evaluates to %s for %s (%s), but its name promises %s - as the other layout and the generic (non-internals) '
+                                  'code path give. With CYTHON_USE_PYLONG_INTERNALS=1 on %s the integer fast paths (comparisons, arithmetic, conversion to C integers, truth tests) compute '
+                                  'wrong results, with the switch off or on the other CPython versions they are right'
+                                  % (name, human[lay], cond_label(d), d.file, d.line, v, what, ('lv_tag = %d' % ((n << nsb) | {1: 0, 0: 1, -1: 2}[s])) if lay == 'tag' else 'Py_SIZE = %d' % (s * n),
+                                     ('true' if want else 'false') if kind in ('truth', 'implies') else want, 'CPython >= 3.12' if lay == 'tag' else 'CPython < 3.12')))
+    # report the root cause only: a macro that is wrong because a macro it expands is wrong is named in the message of that one
+    roots, derived = [], collections.defaultdict(list)
+    for name, d, msg in probs:
+        lay = next(l for l in lays if any(d is x for x in lays[l][1].get(name, ())))
+        e = parse_macro_body(d.body)
+        callees = {x[1] for x in cexpr.walk(e) if x[0] == 'call'} if e else set()
+        culprit = [(n2, d2) for n2, d2, _ in probs if n2 in callees and n2 != name and any(d2 is x for x in lays[lay][1].get(n2, ()))]
+        if culprit:
+            derived[id(culprit[0][1])].append(name)
+        else:
+            roots.append((name, d, msg))
+    probs = [(name, d, msg + (' (wrong as a consequence: %s)' % ', '.join(sorted(set(derived[id(d)]))) if derived.get(id(d)) else '')) for name, d, msg in roots] \
+        if roots else probs
+    # names without a fixed meaning: the two layouts must still agree
+    for short, per in sorted(tables_.items()):
+        if short in SIGN_SPEC or len(per) < 2:
+            continue
+        for d1, v1, _ in per['tag']:
+            for d2, v2, _ in per['size']:
+                common = [(s, n) for (s, n, dg) in v1 if any(k[:2] == (s, n) for k in v2)]
+                for s, n in common:
+                    a = {v for k, v in v1.items() if k[:2] == (s, n)}
+                    b = {v for k, v in v2.items() if k[:2] == (s, n)}
+                    if a != b:
+                        probs.append((PYLONG_PREFIX + short, d1, '%s%s gives %s in the tag-word layout (%s:%d) and %s in the ob_size layout (%s:%d) for sign %d / %d digit(s): modules built with '
+                                      'CYTHON_USE_PYLONG_INTERNALS behave differently on CPython >= 3.12 and < 3.12' % (PYLONG_PREFIX, short, sorted(a), d1.file, d1.line, sorted(b), d2.file, d2.line, s, n)))
+                        break
+    return inst, probs, infos
+
+
+SIGN_PC = ("#if CYTHON_USE_PYLONG_INTERNALS\n#if NEWLAYOUT\n  #define __Pyx_PyLong_SignBits(x)  ((int) (((PyLongObject*)x)->long_value.lv_tag & _PyLong_SIGN_MASK))\n"
+           "  #define __Pyx_PyLong_IsNeg(x)  ((__Pyx_PyLong_SignBits(x) & %s) != 0)\n  #define __Pyx_PyLong_IsZero(x)  (__Pyx_PyLong_SignBits(x) == 1)\n"
+           "  #define __Pyx_PyLong_Sign(x)  (1 - __Pyx_PyLong_SignBits(x))\n  #define __Pyx_PyLong_Halves(x)  (((PyLongObject*)x)->long_value.lv_tag >> 4)\n"
+           "#else\n  #define __Pyx_PyLong_IsNeg(x)  (Py_SIZE(x) < 0)\n  #define __Pyx_PyLong_IsZero(x)  (!Py_SIZE(x))\n  #define __Pyx_PyLong_Sign(x)  ((Py_SIZE(x) > 0) - (Py_SIZE(x) < 0))\n"
+           "  #define __Pyx_PyLong_Halves(x)  (__Pyx_sst_abs(Py_SIZE(x)) %s)\n#endif\n  #define __Pyx_PyLong_IsNonZero(x)  (!__Pyx_PyLong_IsZero(x))\n#else\n  #define __Pyx_PyLong_IsNonZero(x)  PyObject_IsTrue(x)\n#endif\n")
+
+
+def rule_sign(ctx):
+    r = Rule('C39-SIGN', 'the sign/size macros of the two PyLong layouts (3.12 tag word vs ob_size; CYTHON_USE_PYLONG_INTERNALS) give, on every abstract integer (sign x digit count), the value their '
+             'name promises and hence the same value in both layouts (macro bodies expanded and evaluated by the checker over the complete domain)', floor=20)
+    rel = UTIL + '/' + TC
+    consts, hdr = _pylong_consts(ctx.read(rel))
+    for k in sorted(consts):
+        if k in hdr:
+            r.inst('sign:const:' + k, sample='%s = %d (header %d)' % (k, consts[k], hdr[k]))
+            if consts[k] != hdr[k]:
+                r.violate('sign:const:' + k, rel, next((i + 1 for i, l in enumerate(ctx.read(rel).split('\n')) if re.match(r'\s*#\s*define\s+%s\b' % k, l)), 1), 'the fallback `#define %s %d` of TypeConversion.c differs from cpython/longintrepr.h (%d): where the header does not export the constant, the tag word '
+                          'of every int is decoded with the wrong field layout' % (k, consts[k], hdr[k]))
+    decls = {n: [d for d in ds if d.file == TC] for n, ds in ctx.cat.decls.items() if n.startswith(PYLONG_PREFIX)}
+    inst, probs, infos = sign_problems(decls, consts)
+    for key, sample in inst:
+        r.inst(key, sample=sample)
+    seen = set()
+    for name, d, msg in probs:
+        k = (name, tuple(d.conds))
+        if k not in seen:
+            seen.add(k)
+            r.violate('sign:' + name, UTIL + '/' + d.file, d.line, msg)
+    for i in infos:
+        r.info(i)
+    c = {'_PyLong_SIGN_MASK': 3, '_PyLong_NON_SIZE_BITS': 3}
+    good = sign_problems(index_c_text(SIGN_PC % ('2', '/ 2'), TC), c)
+    bad = sign_problems(index_c_text(SIGN_PC % ('1', ''), TC), c)
+    r.positive_control(not good[1] and len(good[0]) == 11 and {p[0] for p in bad[1]} == {PYLONG_PREFIX + 'Halves', PYLONG_PREFIX + 'IsNeg'},
+                       'IsNeg tests the zero bit of the tag word; an unnamed macro differs between the layouts')
+    return r
+
+
+# ---------------------------------------------------------------------------------------------------- C39-STRTAB
+CODE_PY = 'Cython/Compiler/Code.py'
+DECOMPRESS_CALL = re.compile(r'\b(__Pyx_Decompress\w*)\s*\(')
+_MARK = re.compile(r'\x00(\d+)\x00')
+
+
+def template_of(node):
+    """String-building expression -> list of parts (str | ast expression) or None when it is not text (f-string, %-format, +, .format)."""
+    if isinstance(node, ast.Constant) and isinstance(node.value, str):
+        return [node.value]
+    if isinstance(node, ast.JoinedStr):
+        out = []
+        for v in node.values:
+            if isinstance(v, ast.Constant):
+                out.append(str(v.value))
+            elif isinstance(v, ast.FormattedValue):
+                out.append(v.value)
+        return out
+    if isinstance(node, ast.BinOp) and isinstance(node.op, ast.Add):
+        l, r = template_of(node.left), template_of(node.right)
+        if l is None and r is None:
+            return None
+        unwrap = lambda n: n.args[0] if isinstance(n, ast.Call) and isinstance(n.func, ast.Name) and n.func.id in ('str', 'repr') and len(n.args) == 1 else n
+        return (l if l is not None else [unwrap(node.left)]) + (r if r is not None else [unwrap(node.right)])
+    if isinstance(node, ast.BinOp) and isinstance(node.op, ast.Mod):
+        l = template_of(node.left)
+        if l is None or not all(isinstance(p, str) for p in l):
+            return None
+        fmt = ''.join(l)
+        args = list(node.right.elts) if isinstance(node.right, ast.Tuple) else [node.right]
+        named = {k.value: v for k, v in zip(node.right.keys, node.right.values) if isinstance(k, ast.Constant)} if isinstance(node.right, ast.Dict) else None
+        out, pos, i = [], 0, 0
+        for m in re.finditer(r'%(?:\((\w+)\))?[-+ #0]*\d*(?:\.\d+)?([sdirxX%])', fmt):
+            out.append(fmt[pos:m.start()])
+            pos = m.end()
+            if m.group(2) == '%':
+                out.append('%')
+            elif m.group(1):
+                if named is None or m.group(1) not in named:
+                    return None
+                out.append(named[m.group(1)])
+            else:
+                if named is not None or i >= len(args):
+                    return None
+                out.append(args[i])
+                i += 1
+        out.append(fmt[pos:])
+        return out
+    if isinstance(node, ast.Call) and isinstance(node.func, ast.Attribute) and node.func.attr == 'format' and not any(isinstance(a, ast.Starred) for a in node.args):
+        l = template_of(node.func.value)
+        if l is None or not all(isinstance(p, str) for p in l):
+            return None
+        fmt = ''.join(l)
+        kw = {k.arg: k.value for k in node.keywords if k.arg}
+        out, pos, i = [], 0, 0
+        for m in re.finditer(r'\{\{|\}\}|\{(\w*)(?:![rsa])?(?::[^{}]*)?\}', fmt):
+            out.append(fmt[pos:m.start()])
+            pos = m.end()
+            if m.group(0) in ('{{', '}}'):
+                out.append(m.group(0)[0])
+                continue
+            f = m.group(1)
+            if f == '':
+                f, i = str(i), i + 1
+            if f.isdigit():
+                if int(f) >= len(node.args):
+                    return None
+                out.append(node.args[int(f)])
+            elif f in kw:
+                out.append(kw[f])
+            else:
+                return None
+        out.append(fmt[pos:])
+        return out
+    return None
+
+
+def marked(parts):
+    """Template parts -> (text with \\0k\\0 markers for the expression parts, [expressions])."""
+    txt, exprs = '', []
+    for p in parts:
+        if isinstance(p, str):
+            txt += p
+        else:
+            txt += '\x00%d\x00' % len(exprs)
+            exprs.append(p)
+    return txt, exprs
+
+
+class PyScope:
+    """Name resolution through single-assignment locals, loop targets over locally built lists and parameters with a unique call site (one module)."""
+
+    def __init__(self, tree):
+        self.tree = tree
+        self.parent = {}
+        for n in ast.walk(tree):
+            for c in ast.iter_child_nodes(n):
+                self.parent[id(c)] = n
+        self.funcs = [n for n in ast.walk(tree) if isinstance(n, (ast.FunctionDef, ast.AsyncFunctionDef))]
+        self._own = {}
+        self.stale = []
+
+    def ancestors(self, node):
+        n = self.parent.get(id(node))
+        while n is not None:
+            yield n
+            n = self.parent.get(id(n))
+
+    def func_of(self, node):
+        for a in self.ancestors(node):
+            if isinstance(a, (ast.FunctionDef, ast.AsyncFunctionDef, ast.Lambda)):
+                return a
+        return None
+
+    def qualname(self, fn):
+        names = [fn.name]
+        for a in self.ancestors(fn):
+            if isinstance(a, (ast.ClassDef, ast.FunctionDef)):
+                names.append(a.name)
+        return '.'.join(reversed(names))
+
+    def own_nodes(self, fn):
+        """Nodes of fn not inside a nested function/lambda/class scope."""
+        if id(fn) not in self._own:
+            out, todo = [], list(ast.iter_child_nodes(fn))
+            while todo:
+                n = todo.pop()
+                out.append(n)
+                if not isinstance(n, (ast.FunctionDef, ast.AsyncFunctionDef, ast.Lambda, ast.ClassDef)):
+                    todo.extend(ast.iter_child_nodes(n))
+            self._own[id(fn)] = out
+        return self._own[id(fn)]
+
+    @staticmethod
+    def _target_index(target, name):
+        """(found, index) of a name in an assignment/loop target."""
+        if isinstance(target, ast.Name):
+            return (target.id == name, None)
+        if isinstance(target, (ast.Tuple, ast.List)):
+            for i, e in enumerate(target.elts):
+                if isinstance(e, ast.Name) and e.id == name:
+                    return (True, i)
+        return (False, None)
+
+    def binding(self, name, site):
+        """-> ('value', expr) | ('unpack', expr, i) | ('iter', For, i) | ('param', fn, i) | None (ambiguous / not local)."""
+        fn = self.func_of(site)
+        if fn is None or isinstance(fn, ast.Lambda):
+            return None
+        nodes = list(self.own_nodes(fn))
+        assigns, loops = [], []
+        for n in nodes:
+            if isinstance(n, ast.Assign):
+                for t in n.targets:
+                    ok, i = self._target_index(t, name)
+                    if ok:
+                        assigns.append(('value', n.value) if i is None else ('unpack', n.value, i))
+            elif isinstance(n, ast.AnnAssign) and isinstance(n.target, ast.Name) and n.target.id == name and n.value is not None:
+                assigns.append(('value', n.value))
+            elif isinstance(n, (ast.AugAssign, ast.NamedExpr)) and isinstance(n.target, ast.Name) and n.target.id == name:
+                return None
+            elif isinstance(n, (ast.For, ast.AsyncFor)):
+                ok, i = self._target_index(n.target, name)
+                if ok:
+                    loops.append((n, i))
+            elif isinstance(n, ast.comprehension):
+                continue
+            elif isinstance(n, (ast.With, ast.AsyncWith)):
+                if any(it.optional_vars is not None and self._target_index(it.optional_vars, name)[0] for it in n.items):
+                    return None
+            elif isinstance(n, (ast.Global, ast.Nonlocal)) and name in n.names:
+                return None
+        anc = list(self.ancestors(site))
+        enclosing = [(l, i) for l, i in loops if any(a is l for a in anc) and not any(site is x or any(a is x for a in anc) for x in [l.iter])]
+        if enclosing:
+            l, i = enclosing[0] if len(enclosing) == 1 else min(enclosing, key=lambda li: [id(a) for a in anc].index(id(li[0])))
+            inside = {id(x) for x in ast.walk(l)}
+            if not any(id(a[1]) in inside for a in assigns):
+                return ('iter', l, i)
+            return None
+        # loops that bind the name elsewhere: harmless only when they start after the site and share no loop with it
+        site_loops = [a for a in anc if isinstance(a, (ast.For, ast.While, ast.AsyncFor))]
+        for l, i in loops:
+            if l.lineno <= getattr(site, 'lineno', 0) or any(any(a is sl for a in self.ancestors(l)) for sl in site_loops):
+                return None
+        if len(assigns) == 1:
+            aloops = [a for a in self.ancestors(assigns[0][1]) if isinstance(a, (ast.For, ast.While, ast.AsyncFor))]
+            if any(not any(a is l for a in anc) for l in aloops):
+                return ('stale', aloops[0])   # assigned inside a loop the site is not part of: the value of that loop's LAST iteration
+            return assigns[0]
+        if not assigns:
+            a = fn.args
+            params = [x.arg for x in a.posonlyargs + a.args]
+            if name in params:
+                return ('param', fn, params.index(name))
+            if name in [x.arg for x in a.kwonlyargs]:
+                return ('param', fn, name)
+        return None
+
+    def call_sites(self, fn):
+        out = []
+        for n in ast.walk(self.tree):
+            if isinstance(n, ast.Call) and ((isinstance(n.func, ast.Name) and n.func.id == fn.name) or (isinstance(n.func, ast.Attribute) and n.func.attr == fn.name)):
+                out.append(n)
+        return out
+
+    def elements(self, it, site):
+        """Element expressions of an iterable built locally: [(expr, site)] or None."""
+        while isinstance(it, ast.Call) and isinstance(it.func, ast.Name) and it.func.id in ('reversed', 'sorted', 'list', 'tuple', 'iter') and len(it.args) == 1 and not it.keywords:
+            it = it.args[0]
+        if isinstance(it, (ast.List, ast.Tuple)):
+            return [(e, site) for e in it.elts]
+        if not isinstance(it, ast.Name):
+            return None
+        b = self.binding(it.id, site)
+        if not b or b[0] != 'value' or not isinstance(b[1], (ast.List, ast.Tuple)):
+            return None
+        out = [(e, b[1]) for e in b[1].elts]
+        fn = self.func_of(site)
+        for n in self.own_nodes(fn):
+            if isinstance(n, ast.Attribute) and isinstance(n.value, ast.Name) and n.value.id == it.id:
+                call = self.parent.get(id(n))
+                if n.attr == 'append' and isinstance(call, ast.Call) and call.func is n and len(call.args) == 1:
+                    out.append((call.args[0], call))
+                elif n.attr in ('extend', 'insert', 'pop', 'remove', 'clear', 'sort', 'reverse', '__setitem__'):
+                    return None
+            elif isinstance(n, ast.Subscript) and isinstance(n.value, ast.Name) and n.value.id == it.id and isinstance(n.ctx, (ast.Store, ast.Del)):
+                return None
+        return out
+
+    def resolve(self, e, site, depth=0):
+        """Expression with its local names replaced by the expressions they stand for (a new ast; unresolvable names stay, tagged with their scope)."""
+        if depth > 40:
+            raise AnalysisError('C39-STRTAB: name resolution does not terminate')
+        if isinstance(e, ast.Name):
+            b = self.binding(e.id, site)
+            if b is None:
+                fn = self.func_of(site)
+                return ast.Name(id='%s@%s' % (e.id, self.qualname(fn) if fn is not None and not isinstance(fn, ast.Lambda) else ''), ctx=ast.Load())
+            if b[0] == 'stale':
+                self.stale.append(e.id)
+                return ast.Name(id='<last-iteration>%s' % e.id, ctx=ast.Load())
+            if b[0] == 'value':
+                return self.resolve(b[1], b[1], depth + 1)
+            if b[0] == 'unpack':
+                v = self.resolve(b[1], b[1], depth + 1)
+                if isinstance(v, ast.Tuple) and b[2] < len(v.elts):
+                    return v.elts[b[2]]
+                return ast.Subscript(value=v, slice=ast.Constant(value=b[2]), ctx=ast.Load())
+            if b[0] == 'iter':
+                loop, i = b[1], b[2]
+                els = self.elements(loop.iter, loop)
+                if els and len(els) == 1:
+                    x, xsite = els[0]
+                    if i is None:
+                        return self.resolve(x, xsite, depth + 1)
+                    if isinstance(x, ast.Tuple) and i < len(x.elts):
+                        return self.resolve(x.elts[i], xsite, depth + 1)
+                it = self.resolve(loop.iter, loop, depth + 1)
+                return ast.Subscript(value=ast.Call(func=ast.Name(id='<element-of>', ctx=ast.Load()), args=[it], keywords=[]),
+                                     slice=ast.Constant(value=i), ctx=ast.Load())
+            if b[0] == 'param':
+                fn, i = b[1], b[2]
+                sites = self.call_sites(fn)
+                if len(sites) == 1:
+                    c = sites[0]
+                    if isinstance(i, int):
+                        params = [x.arg for x in fn.args.posonlyargs + fn.args.args]
+                        pname = params[i]
+                        if isinstance(c.func, ast.Attribute) and params and params[0] in ('self', 'cls'):
+                            i -= 1
+                        if 0 <= i < len(c.args) and not any(isinstance(a, ast.Starred) for a in c.args):
+                            return self.resolve(c.args[i], c, depth + 1)
+                    else:
+                        pname = i
+                    for k in c.keywords:
+                        if k.arg == pname:
+                            return self.resolve(k.value, c, depth + 1)
+                return ast.Name(id='%s@%s' % (e.id, self.qualname(fn)), ctx=ast.Load())
+        if isinstance(e, ast.AST):
+            new = type(e)()
+            for f, v in ast.iter_fields(e):
+                if isinstance(v, list):
+                    setattr(new, f, [self.resolve(x, site, depth) if isinstance(x, ast.AST) else x for x in v])
+                elif isinstance(v, ast.AST):
+                    setattr(new, f, self.resolve(v, site, depth) if not isinstance(v, ast.expr_context) else v)
+                else:
+                    setattr(new, f, v)
+            return new
+        return e
+
+
+def _dump(e):
+    return ast.dump(e, annotate_fields=False) if isinstance(e, ast.AST) else repr(e)
+
+
+def _src(e):
+    try:
+        return ast.unparse(e)
+    except Exception:
+        return _dump(e)
+
+
+def emissions(scope, fn):
+    """[(call node, marked text, [exprs])] for every string template passed as a call argument inside fn, in source order."""
+    out = []
+    for n in scope.own_nodes(fn):
+        if isinstance(n, ast.Call):
+            for a in n.args:
+                t = template_of(a)
+                if t is not None and any(isinstance(p, str) and p for p in t):
+                    txt, exprs = marked(t)
+                    out.append((n, txt, exprs))
+    out.sort(key=lambda x: (x[0].lineno, x[0].col_offset))
+    return out
+
+
+def decompress_disablers(decls):
+    """From the C side: {macro: helper} for `#ifdef M` / `#if defined(M)` blocks at the top of a __Pyx_Decompress* helper that `return NULL`."""
+    out = {}
+    for name, ds in decls.items():
+        if not DECOMPRESS_CALL.match(name + '('):
+            continue
+        for d in ds:
+            if d.kind != 'func' or not d.body:
+                continue
+            for m in re.finditer(r'^[ \t]*#[ \t]*(?:ifdef[ \t]+(\w+)|if[ \t]+defined[ \t]*\(?[ \t]*(\w+)[ \t]*\)?[ \t]*$)(.*?)^[ \t]*#[ \t]*(?:else|elif|endif)', d.body, re.M | re.S):
+                if re.search(r'\breturn\s+(?:NULL|0)\s*;', m.group(3)):
+                    out[m.group(1) or m.group(2)] = name
+    return out
+
+
+def c_param_role(ptext):
+    """Role of a parameter of a decompress helper, from its declaration."""
+    m = re.search(r'([A-Za-z_]\w*)\s*$', ptext)
+    name = m.group(1) if m else ''
+    if re.search(r'char\s*\*', ptext):
+        return 'data', name
+    if 'uncompressed' in name or 'decompressed' in name or re.search(r'(?:^|_)(?:out|dst|result)_?(?:len|length|size)', name):
+        return 'plain-length', name
+    if re.search(r'len|size', name):
+        return 'data-length', name
+    return 'other', name
+
+
+def strtab_problems(tree, decls, relname='Code.py'):
+    """-> (instances [(key, sample)], problems [(key, line, message)], infos)."""
+    scope = PyScope(tree)
+    inst, probs, infos = [], [], []
+    disablers = decompress_disablers(decls)
+    found = 0
+    for fn in scope.funcs:
+        ems = emissions(scope, fn)
+        hits = [(c, txt, ex, m) for c, txt, ex in ems for m in DECOMPRESS_CALL.finditer(txt) if not re.match(r'\s*#\s*define', txt)]
+        if not hits:
+            continue
+        qn = scope.qualname(fn)
+        for call, txt, exprs, m in hits:
+            found += 1
+            helper = m.group(1)
+            rp = cutil.match_paren(txt, m.end() - 1)
+            if rp < 0:
+                raise AnalysisError('C39-STRTAB: unbalanced emitted call of %s in %s' % (helper, qn))
+            cargs = split_args(txt[m.end():rp])
+            protos = [d for d in decls.get(helper, []) if d.kind in ('func', 'proto')]
+            if not protos:
+                raise AnalysisError('C39-STRTAB: %s (emitted by %s) has no prototype in Cython/Utility' % (helper, qn))
+            params = protos[0].params or []
+            if len(params) != len(cargs):
+                probs.append(('strtab:%s:%s:arity' % (qn, helper), call.lineno, '%s emits `%s(...)` with %d arguments, the helper takes %d (%s): the generated module does not compile in the configurations '
+                              'that select this branch' % (qn, helper, len(cargs), len(params), ', '.join(params))))
+                continue
+            roles = [c_param_role(p) for p in params]
+            # the C variable passed as data and the array written under that name
+            data_i = [i for i, (r_, _) in enumerate(roles) if r_ == 'data']
+            if len(data_i) != 1:
+                raise AnalysisError('C39-STRTAB: cannot identify the data parameter of %s(%s)' % (helper, ', '.join(params)))
+            cvar = cargs[data_i[0]].strip()
+            mm = _MARK.fullmatch(cvar)
+            if mm:
+                v = scope.resolve(exprs[int(mm.group(1))], call)
+                cvar = v.value if isinstance(v, ast.Constant) and isinstance(v.value, str) else None
+            if not cvar or not re.fullmatch(r'[A-Za-z_]\w*', cvar):
+                raise AnalysisError('C39-STRTAB: the data argument of the emitted %s call in %s is not a C identifier' % (helper, qn))
+            written = find_written_array(scope, fn, call, cvar)
+            if written is None:
+                raise AnalysisError('C39-STRTAB: no array written under the C name `%s` before the emitted %s call in %s' % (cvar, helper, qn))
+            wexpr, wsite = written
+            wres = scope.resolve(wexpr, wsite)
+            for i, ((role, pname), carg) in enumerate(zip(roles, cargs)):
+                if role in ('data', 'other'):
+                    continue
+                key = 'strtab:%s:%s:%s' % (qn, helper, pname)
+                mm = _MARK.fullmatch(carg.strip())
+                if not mm:
+                    raise AnalysisError('C39-STRTAB: argument `%s` of the emitted %s call in %s is not a single interpolated value' % (carg, helper, qn))
+                del scope.stale[:]
+                ares = scope.resolve(exprs[int(mm.group(1))], call)
+                if scope.stale:
+                    inst.append((key, '%s <- %s' % (key, _src(exprs[int(mm.group(1))]))))
+                    probs.append((key, call.lineno, '%s emits `%s(%s, ...)` with `%s` for the C parameter `%s`, but `%s` is assigned inside another loop: every emitted `#if (CYTHON_COMPRESS_STRINGS)` branch '
+                                  'gets the value of that loop\'s last iteration instead of the length that belongs to its own array - all but one compression setting decompress the wrong number of bytes'
+                                  % (qn, helper, cvar, _src(exprs[int(mm.group(1))]), pname, scope.stale[0])))
+                    continue
+                if not (isinstance(ares, ast.Call) and isinstance(ares.func, ast.Name) and ares.func.id.split('@')[0] == 'len' and len(ares.args) == 1):
+                    raise AnalysisError('C39-STRTAB: argument %s of the emitted %s call in %s is `%s`, not a len(...) of a local value' % (pname, helper, qn, _src(ares)))
+                got = ares.args[0]
+                if role == 'data-length':
+                    want, wtxt = wres, 'the array written as `%s` (%s)' % (cvar, _src(wexpr))
+                else:
+                    if not (isinstance(wres, ast.Call) and len(wres.args) == 1 and not wres.keywords):
+                        if any(p_[0].startswith('strtab:%s:%s:' % (qn, helper)) for p_ in probs):
+                            continue                  # already reported: the array written under this name is not the compressed one
+                        raise AnalysisError('C39-STRTAB: the array `%s` emitted before %s in %s is not the result of a one-argument compress call (%s)' % (cvar, helper, qn, _src(wres)))
+                    want, wtxt = wres.args[0], 'the data that was compressed into `%s` (%s)' % (cvar, _src(wres.args[0])[:80])
+                inst.append((key, '%s <- %s' % (key, _src(exprs[int(mm.group(1))]))))
+                if _dump(got) != _dump(want):
+                    probs.append((key, call.lineno, '%s emits `%s(%s, ...)` with len(%s) for the C parameter `%s`, which must be the length of %s: in the build configurations whose '
+                                  '`#if (CYTHON_COMPRESS_STRINGS)` branch contains this call the decompressor reads the wrong number of bytes / allocates the wrong result size - the string table of the '
+                                  'module is truncated, garbage or the import fails, while the other compression settings work' % (qn, helper, cvar, _src(got)[:80], pname, wtxt)))
+        # a preprocessor branch must not disable the helper it calls
+        for seg in emitted_segments(scope, fn):
+            calls = {m.group(1) for c, txt, ex in seg for m in DECOMPRESS_CALL.finditer(txt) if not re.match(r'\s*#\s*define', txt)}
+            defs = {m.group(1): c for c, txt, ex in seg for m in [re.match(r'\s*#\s*define\s+(\w+)', txt)] if m}
+            for h in sorted(calls):
+                mine = sorted(mc for mc, hh in disablers.items() if hh == h)
+                if not mine:
+                    continue
+                key = 'strtab:%s:%s:enabled' % (qn, h)
+                if key not in [k for k, _ in inst]:
+                    inst.append((key, '%s: the branch calling %s does not #define %s' % (qn, h, '/'.join(mine))))
+                for mc in mine:
+                    if mc in defs and key not in [p[0] for p in probs]:
+                        probs.append((key, defs[mc].lineno, '%s emits `#define %s` in the same preprocessor branch as the call of %s; StringTools.c compiles the helper to `return NULL` under that macro, '
+                                      'so with this CYTHON_COMPRESS_STRINGS setting the string table is never decompressed and the module import fails' % (qn, mc, h)))
+    if not found:
+        raise AnalysisError('C39-STRTAB: no emitted __Pyx_Decompress* call found in %s' % relname)
+    if not disablers:
+        infos.append('no `#ifdef <macro> ... return NULL` block found in the decompress helpers')
+    return inst, probs, infos
+
+
+def find_written_array(scope, fn, emit_call, cvar, depth=0):
+    """The data expression of the last call before emit_call (in an enclosing block) that receives the C variable name as a string constant: (expr, site)."""
+    anc = {id(a) for a in scope.ancestors(emit_call)}
+    best = None
+    for n in scope.own_nodes(fn):
+        if not isinstance(n, ast.Call) or n is emit_call or (n.lineno, n.col_offset) >= (emit_call.lineno, emit_call.col_offset):
+            continue
+        names = [i for i, a in enumerate(n.args) if isinstance(a, ast.Constant) and a.value == cvar]
+        if len(names) != 1:
+            continue
+        stmt = n
+        while id(stmt) in scope.parent and not isinstance(stmt, ast.stmt):
+            stmt = scope.parent[id(stmt)]
+        block = scope.parent.get(id(stmt))
+        if block is not fn and id(block) not in anc:
+            continue                          # written in a sibling branch: not on the path to the emission
+        if isinstance(block, ast.If) and id(block) in anc:
+            # same `if`: must be in the same arm
+            arm = block.body if any(stmt is s for s in block.body) else block.orelse
+            if not any(id(s) in anc or s is emit_call for s in arm) and not any(emit_call is x for s in arm for x in ast.walk(s)):
+                continue
+        others = [a for i, a in enumerate(n.args) if i not in names]
+        data = None
+        callee = [f for f in scope.funcs if isinstance(n.func, ast.Name) and f.name == n.func.id]
+        if len(callee) == 1:
+            ps = [x.arg for x in callee[0].args.posonlyargs + callee[0].args.args]
+            used = {x.id for c in ast.walk(callee[0]) if isinstance(c, ast.Call) and isinstance(c.func, ast.Name) and c.func.id == 'len' for x in c.args if isinstance(x, ast.Name)}
+            cand = [i for i, p in enumerate(ps) if p in used and i < len(n.args) and i not in names]
+            if len(cand) == 1:
+                data = n.args[cand[0]]
+        if data is None and len(others) == 2:
+            data = others[1]                  # (writer, data, name)
+        if data is None and len(others) == 1:
+            data = others[0]
+        if data is not None and (best is None or (n.lineno, n.col_offset) > (best[1].lineno, best[1].col_offset)):
+            best = (data, n)
+    if best is None and depth == 0:
+        sites = scope.call_sites(fn)
+        if len(sites) == 1 and scope.func_of(sites[0]) is not None:
+            return find_written_array(scope, scope.func_of(sites[0]), sites[0], cvar, 1)
+    return best
+
+
+def emitted_segments(scope, fn):
+    """Emitted lines of fn grouped into the preprocessor branches they end up in, for every path through the if/else statements that emit something
+    (loop bodies taken once). -> list of segments, each a list of (call, text, exprs)."""
+    ems = {id(c): (c, t, e) for c, t, e in emissions(scope, fn)}
+    if not ems:
+        return []
+
+    def has(node):
+        return any(id(x) in ems for x in ast.walk(node))
+
+    def ev_of(stmt):
+        out = [ems[id(x)] for x in ast.walk(stmt) if id(x) in ems]
+        out.sort(key=lambda x: (x[0].lineno, x[0].col_offset))
+        return out
+
+    def paths(stmts):
+        res = [[]]
+        for st in stmts:
+            if isinstance(st, (ast.FunctionDef, ast.AsyncFunctionDef, ast.ClassDef)) or not has(st):
+                continue
+            if isinstance(st, ast.If):
+                alts = paths(st.body) + paths(st.orelse)
+            elif isinstance(st, (ast.For, ast.While, ast.AsyncFor)):
+                alts = [a + b for a in paths(st.body) for b in paths(st.orelse)]
+            elif isinstance(st, (ast.With, ast.AsyncWith)):
+                alts = paths(st.body)
+            elif isinstance(st, ast.Try):
+                alts = [a + b for a in paths(st.body) for b in paths(st.finalbody)]
+            else:
+                alts = [ev_of(st)]
+            res = [p + a for p in res for a in alts]
+            if len(res) > 4096:
+                raise AnalysisError('C39-STRTAB: too many emission paths in %s' % fn.name)
+        return res
+
+    segs, seen = [], set()
+    for p in paths(fn.body):
+        cur = []
+        for ev in p + [None]:
+            boundary = ev is None
+            if ev is not None:
+                head = ev[1].lstrip()
+                mm = _MARK.match(head)
+                if mm:
+                    x = ev[2][int(mm.group(1))]
+                    lits = [c.value for c in ast.walk(x) if isinstance(c, ast.Constant) and isinstance(c.value, str)]
+                    boundary = any(l.lstrip().startswith('#') and not l.lstrip().startswith('#define') for l in lits)
+                else:
+                    boundary = bool(re.match(r'#\s*(?!define\b)', head)) and head.startswith('#')
+            if boundary:
+                k = tuple(id(e[0]) for e in cur)
+                if cur and k not in seen:
+                    seen.add(k)
+                    segs.append(cur)
+                cur = []
+            elif ev is not None:
+                cur.append(ev)
+    return segs
+
+
+STRTAB_PC = '''
+def _write(code, data, c_name):
+    code.putln("const char %s[%d] = ..." % (c_name, len(data)))
+
+class G:
+    def gen(self, values):
+        plain = b''.join(values)
+        w = self.parts['x']
+        rows = []
+        for number, pack in ALGOS:
+            packed = pack(plain)
+            rows.append((number, packed))
+        for number, packed in reversed(rows):
+            w.putln("#if C == %d" % number)
+            _write(w, packed, 'cstring')
+            if number == 90:
+                w.putln(f'PyObject *data = __Pyx_DecompressString_LZSS(cstring, {len(packed)}, {LEN2});')
+                w.putln("#define __Pyx_DecompressString_UNUSED")
+            else:
+                w.putln('PyObject *data = __Pyx_DecompressString(cstring, %d, %d);' % (LEN1, number))
+                w.putln("#define %s_UNUSED")
+        w.putln("#else")
+        _write(w, plain, 'bytes')
+        w.putln("#define __Pyx_DecompressString_UNUSED")
+        w.putln("#define __Pyx_DecompressString_LZSS_UNUSED")
+        w.putln("#endif")
+'''
+STRTAB_PC_C = ("static PyObject *__Pyx_DecompressString(const char *s, Py_ssize_t length, int algo) {\n#ifdef __Pyx_DecompressString_UNUSED\n    return NULL;\n#else\n    return f(s, length);\n#endif\n}\n"
+               "static PyObject *__Pyx_DecompressString_LZSS(const char *s, size_t compressed_length, size_t uncompressed_length) {\n#if defined(__Pyx_DecompressString_LZSS_UNUSED)\n"
+               "    return NULL;\n#else\n    return g(s);\n#endif\n}\n")
+
+
+def rule_strtab(ctx):
+    r = Rule('C39-STRTAB', 'every emitted __Pyx_Decompress*() call of the string-table generator passes, for the length parameters of the C prototype, len() of the array written under the C name it '
+             'passes as data / of the value that was compressed into it (names resolved through single-assignment locals, loop targets and list rows), and the preprocessor branch of a call never '
+             '#defines the macro under which StringTools.c compiles the called helper to `return NULL`', floor=4)
+    tree = ctx.parse(CODE_PY)
+    inst, probs, infos = strtab_problems(tree, ctx.cat.decls, CODE_PY)
+    for key, sample in inst:
+        r.inst(key, sample=sample)
+    for key, line, msg in probs:
+        r.violate(key, CODE_PY, line, msg)
+    for i in infos:
+        r.info(i)
+    cdecls = index_c_text(STRTAB_PC_C)
+    good = strtab_problems(ast.parse(STRTAB_PC.replace('LEN1', 'len(packed)').replace('LEN2', 'len(plain)').replace('%s_UNUSED', '__Pyx_DecompressString_LZSS_UNUSED')), cdecls)
+    bad = strtab_problems(ast.parse(STRTAB_PC.replace('LEN1', 'len(plain)').replace('LEN2', 'len(packed)').replace('%s_UNUSED', '__Pyx_DecompressString_UNUSED')), cdecls)
+    r.positive_control(not good[1] and len(good[0]) == 5 and sorted(p[0] for p in bad[1]) == [
+        'strtab:G.gen:__Pyx_DecompressString:enabled', 'strtab:G.gen:__Pyx_DecompressString:length', 'strtab:G.gen:__Pyx_DecompressString_LZSS:uncompressed_length'],
+        'plain length passed as the compressed length, compressed length as the result size, called helper disabled in its own branch')
     return r
